@@ -8,6 +8,8 @@ pub use error::MaybenotResult;
 
 mod ffi;
 pub use ffi::*;
+#[cfg(maybenot_verif)]
+pub mod verif;
 use rand::{
     rngs::{adapter::ReseedingRng, OsRng},
     SeedableRng,
@@ -153,6 +155,8 @@ impl MaybenotFramework {
 
         let rng_core = rand_chacha::ChaCha12Core::from_entropy();
         let rng = Rng::new(rng_core, RNG_RESEED_THRESHOLD, OsRng);
+        #[cfg(maybenot_verif)]
+        let rng = verif::rng().unwrap_or(rng);
 
         let framework = Framework::new(
             machines,
@@ -175,6 +179,8 @@ impl MaybenotFramework {
         actions: &mut [MaybeUninit<MaybenotAction>],
     ) -> usize {
         let now = Instant::now();
+        #[cfg(maybenot_verif)]
+        let now = verif::now().unwrap_or(now);
 
         // convert from the repr(C) events and store them temporarily in our buffer
         self.events_buf.clear();
